@@ -423,10 +423,16 @@ theorem deviate_reported_conditions (opts : Opts) (ms : Stmt) (spec node : Entry
 
 /-- The two conditions that are detected when the deviating module is converted (`toEntry`), before
 the deviation stage: an unknown deviate argument and a replacement type that does not resolve.
-FULL STATEMENT, NOT PROVED: `processAll` returns errors whenever a loaded module contains such a
-statement.  Proved (`deviate_reported_conversion_partial`): the entry of the `deviation` statement
+FULL STATEMENT, not proved in this file; PROVED in Props/C08Bridge.lean (`conversionErrorsReported`)
+for every registry of the loaded shape whose loaded statements are module / submodule statements —
+hence for everything `Registry.loadAll` / `Model.loadTexts` produce (`conversionErrorsReported_loaded`,
+`conversionErrorsReported_loadTexts`) — and REFUTED there for arbitrary registries
+(`conversionErrorsReported_needs_loadedShape`: two entries under one sequence number): `processAll`
+returns errors whenever a loaded module contains such a statement.  Proved here
+(`deviate_reported_conversion_partial`): the entry of the `deviation` statement
 carries a recorded error whenever one of its deviate statements has an unknown argument or a deviate
-entry with an error, for every fuel, scope and conversion state.  Missing: (i) that the `"type"` case
+entry with an error, for every fuel, scope and conversion state.  Missing here, supplied by the bridge (`deviate_bad_type_recorded`, `deviation_errors_recorded`,
+`module_errors_cached`): (i) that the `"type"` case
 of `Model.toEntry` leaves `deviate-bad-type` on the deviate entry through the remaining field steps
 (plain unfolding of the seven nested steps), and (ii) the way from the deviation entry into the module
 entry (the `"deviation"` step imports it; ten more field steps follow) and through the conversion
